@@ -104,7 +104,7 @@ theorem C03_finish_last (nS nM : Nat) (e e' : Enc) (h : encEv nS nM e ⟨mds_FIN
     have a : ¬ (mds_FINISH = mds_SEGNO) := by decide
     simp [a]
   rw [h3] at h
-  have h4 : mds_FINISH < mds_REST ∨ mds_FINISH ≥ mds_SLR ∨ (⟨mds_FINISH, 0⟩ : MEv).arg ≠ 0 := by decide
+  have h4 : (mds_FINISH < mds_REST ∧ mds_FINISH ≠ mds_CARRY) ∨ mds_FINISH ≥ mds_SLR ∨ (⟨mds_FINISH, 0⟩ : MEv).arg ≠ 0 := by decide
   simp only [h4, if_true, Except.ok.injEq] at h
   subst h
   rfl
